@@ -54,4 +54,26 @@ theorem retain_calls_perm (m : PMap w V) : (m.retainCalls none).Perm m.entries :
 /-- every state reachable by any history (including interrupted `retain`s) satisfies the invariant -/
 theorem invariant_always (ops : List (Op w V)) : (run ops (PMap.empty : PMap w V)).Inv := run_inv ops
 
+
+/-- no out-of-bounds index: in every reachable state every node index stored in a child link (the
+slots of the tree) and every index waiting in the free list is below the arena length, so
+`self.table[idx]` and the slot returned by `free.pop()` in `new_node` are always in range -/
+theorem indices_in_bounds (ops : List (Op w V)) :
+    (∀ s ∈ (run ops (PMap.empty : PMap w V)).root.slots, s < (run ops (PMap.empty : PMap w V)).alloc) ∧
+    (∀ s ∈ (run ops (PMap.empty : PMap w V)).free, s < (run ops (PMap.empty : PMap w V)).alloc) := by
+  have h := run_inv (w := w) (V := V) ops
+  constructor
+  · intro s hs
+    refine Nat.lt_of_not_le (fun hge => ?_)
+    have h0 := h.slots_ge s hge
+    have : 0 < ((run ops (PMap.empty : PMap w V)).root.slots ++ (run ops (PMap.empty : PMap w V)).free).count s :=
+      List.count_pos_iff.2 (List.mem_append_left _ hs)
+    omega
+  · intro s hs
+    refine Nat.lt_of_not_le (fun hge => ?_)
+    have h0 := h.slots_ge s hge
+    have : 0 < ((run ops (PMap.empty : PMap w V)).root.slots ++ (run ops (PMap.empty : PMap w V)).free).count s :=
+      List.count_pos_iff.2 (List.mem_append_right _ hs)
+    omega
+
 end PT.C20
